@@ -787,7 +787,20 @@ class Phonopy:
                     )
                     raise RuntimeError(msg)
 
-        self._force_constants = force_constants
+        if (
+            isinstance(force_constants, np.ndarray)
+            and force_constants.dtype == np.dtype("double")
+            and force_constants.flags.c_contiguous
+            and force_constants.flags.aligned
+        ):
+            self._force_constants = force_constants
+        else:
+            # The compiled routines (e.g. symmetrization) read the raw buffer.
+            # When the dynamical matrix can not be built yet (no masses), the
+            # array would otherwise be kept as given.
+            self._force_constants = np.array(
+                force_constants, dtype="double", order="C"
+            )
         if self._primitive.masses is not None:
             self._set_dynamical_matrix()
 
